@@ -1,15 +1,33 @@
 package sim
 
 import (
+	"bytes"
 	"encoding/json"
 	"fmt"
 	"math/rand"
 	"os"
+	"runtime"
 	"sort"
+	"strconv"
+	"sync"
 	"time"
 
 	"verif/simrt"
 )
+
+// goid returns the id of the calling goroutine (parsed from the stack header;
+// only used in degraded mode).
+func goid() int64 {
+	var buf [64]byte
+	n := runtime.Stack(buf[:], false)
+	b := buf[:n]
+	b = bytes.TrimPrefix(b, []byte("goroutine "))
+	if i := bytes.IndexByte(b, ' '); i > 0 {
+		v, _ := strconv.ParseInt(string(b[:i]), 10, 64)
+		return v
+	}
+	return -1
+}
 
 // World is the simulator state of one node process. Exactly one simulated
 // task runs at any time; hand-offs go through channels, so plain fields are
@@ -41,6 +59,15 @@ type World struct {
 	siteHits      []int64
 	traceSites    bool
 	pnet          *pipeNet
+
+	// degraded: the instrumented tree starts goroutines of its own. Their
+	// steps are not under scheduler control: hooks are serialised by mu, only
+	// the goroutine of the running task ticks against the fuel / yields, other
+	// goroutines run freely (and a panic on one of them kills the node, as in
+	// the real service).
+	degraded  bool
+	mu        sync.Mutex
+	pipeGoids bool
 }
 
 type SiteInfo struct {
@@ -64,6 +91,7 @@ type Task struct {
 	fuel      int64
 	exhausted bool
 	quantum   int64
+	goid      int64
 	resume    chan struct{}
 	done      bool
 	spinning  bool
@@ -99,15 +127,17 @@ func NewWorld(env Env) *World {
 		grand:       rand.New(rand.NewSource(1)),
 		probes:      map[string]int64{},
 	}
-	w.mainTask = &Task{idx: -1, fuel: DefaultFuel}
+	w.mainTask = &Task{idx: -1, fuel: DefaultFuel, goid: goid()}
 	w.cur = w.mainTask
 	if p := os.Getenv("DST_INSTR_REPORT"); p != "" {
 		if b, err := os.ReadFile(p); err == nil {
 			var rep struct {
-				Sites []SiteInfo `json:"sites"`
+				Sites        []SiteInfo `json:"sites"`
+				GoStatements []string   `json:"go_statements"`
 			}
 			if json.Unmarshal(b, &rep) == nil {
 				w.sites = rep.Sites
+				w.degraded = len(rep.GoStatements) > 0
 			}
 		}
 	}
@@ -125,7 +155,13 @@ func (w *World) Activate() {
 	simrt.SleepHook = func(d time.Duration) { w.clock = w.clock.Add(d) }
 	simrt.RandHook = func() *rand.Rand { return w.grand }
 	simrt.YieldHook = w.yieldSpin
-	simrt.ProbeHook = func(name string) { w.probes[name]++ }
+	simrt.ProbeHook = func(name string) {
+		if w.degraded {
+			w.mu.Lock()
+			defer w.mu.Unlock()
+		}
+		w.probes[name]++
+	}
 }
 
 func (w *World) Deactivate() {
@@ -147,6 +183,17 @@ func (w *World) SiteName(id int) string {
 }
 
 func (w *World) step(site int) {
+	if w.degraded {
+		w.mu.Lock()
+		t := w.cur
+		if !w.pipeGoids && goid() != t.goid {
+			// a goroutine started by repo code: counted, never scheduled, never fuel-panicked
+			t.ticks++
+			w.mu.Unlock()
+			return
+		}
+		w.mu.Unlock()
+	}
 	t := w.cur
 	t.ticks++
 	t.lastSite = site
@@ -187,6 +234,10 @@ func (w *World) yieldSpin() {
 }
 
 func (w *World) mapOrder(site int, sorted []string) []string {
+	if w.degraded {
+		w.mu.Lock()
+		defer w.mu.Unlock()
+	}
 	n := len(sorted)
 	w.mapSites[site]++
 	if n < 2 {
@@ -256,6 +307,7 @@ func (w *World) RunConcurrent(fns []func(t *Task), spec SchedSpec, estTicks []in
 		fn := fns[i]
 		go func() {
 			<-t.resume
+			t.goid = goid()
 			fn(t)
 			t.done = true
 			w.yieldCh <- t
